@@ -118,20 +118,23 @@ func ruleGrouperSelection(r *Run) {
 		var withoutLoads []ssa.Value
 		var gNonNil *ssa.BinOp
 		var gT bool
-		allInstrs(ns, func(in ssa.Instruction) {
-			switch x := in.(type) {
-			case *ssa.UnOp:
-				if f, _, ok := loadOfField(x); ok && f == "Without" {
-					withoutLoads = append(withoutLoads, x)
-				}
-			case *ssa.BinOp:
-				if v, nn, ok := nilCheck(x); ok {
-					if f, _, ok := loadOfField(v); ok && f == "Grouping" {
-						gNonNil, gT = x, nn
+		nsGrp := funcGroup(ns)
+		for _, gf := range nsGrp {
+			allInstrs(gf, func(in ssa.Instruction) {
+				switch x := in.(type) {
+				case *ssa.UnOp:
+					if f, _, ok := loadOfField(x); ok && f == "Without" {
+						withoutLoads = append(withoutLoads, x)
+					}
+				case *ssa.BinOp:
+					if v, nn, ok := nilCheck(x); ok {
+						if f, _, ok := loadOfField(originValueIn(v, nsGrp)); ok && f == "Grouping" {
+							gNonNil, gT = x, nn
+						}
 					}
 				}
-			}
-		})
+			})
+		}
 		if gNonNil == nil || len(withoutLoads) == 0 {
 			o.Undecide(r.pos(ns.Pos()), "Grouping/Without tests not found")
 		} else {
@@ -141,28 +144,34 @@ func ruleGrouperSelection(r *Run) {
 				for _, wl := range withoutLoads {
 					assume[wl] = constant.MakeBool(wo)
 				}
-				w := &feWalker{Fn: ns, Assume: assume}
+				// helpers that take part in the choice are followed, buildSet itself is not
+				bs := p.Func(enginePkg, "buildSet")
+				base := inlineHelpers(ns)
+				w := &feWalker{Fn: ns, Assume: assume, Inline: func(c *ssa.Function, d int) bool { return (bs == nil || (c != bs && c.Origin() != bs)) && base(c, d) }}
 				for _, e := range w.Run() {
 					if isErr, known := endReturnsError(e); known && isErr {
 						continue
 					}
-					// buildSet(nil, X...) stored to fields by / without: X must be g.Labels for the chosen side and nil for the other
+					// the sets stored to fields by / without: built from g.Labels for the chosen side, empty
+					// (nil, or built from no labels) for the other
 					for _, st := range e.State.stores {
 						n, _, ok := fieldNameOf(st.Store.Addr)
-						if !ok || (n != "by" && n != "without") {
+						if !ok || (n != "by" && n != "without") || st.Store.Parent() != ns {
 							continue
 						}
-						c, ok := st.Val.V.(*ssa.Call)
-						if !ok || len(c.Call.Args) < 2 {
-							continue
-						}
-						arg := c.Call.Args[1]
-						// resolve phi on this path
-						av := w.evalVal(e.State, arg)
-						src := av.V
+						val := w.evalVal(e.State, st.Val.V).V
+						var src ssa.Value = val
 						isLabels := false
-						if f, _, ok := loadOfField(src); ok && f == "Labels" {
-							isLabels = true
+						if c, ok := val.(*ssa.Call); ok && len(c.Call.Args) >= 2 {
+							// resolve the label list on this path
+							src = w.evalVal(e.State, c.Call.Args[1]).V
+							if f, _, ok := loadOfField(src); ok && f == "Labels" {
+								isLabels = true
+							}
+						} else if !isNilConst(val) {
+							bad = true
+							o.Fail(r.pos(st.Store.Pos()), "the %s-set is %s, neither nil nor a set built by buildSet", n, describe(val, 1))
+							continue
 						}
 						want := (n == "without") == wo
 						if isLabels != want {
